@@ -108,8 +108,14 @@ For a general description of dotted items (items) and ℇ-moves of items, see:
 */
 func (this *Item) Emoves() (items []*Item) {
 	newItems := util.NewStack(8).Push(this)
+	visited := make(map[string]bool)
 	for newItems.Len() > 0 {
 		item := newItems.Pop().(*Item)
+		// a nullable body of a repetition or option leads back to an item already expanded
+		if visited[item.HashKey()] {
+			continue
+		}
+		visited[item.HashKey()] = true
 
 		if item.Reduce() || item.nextIsTerminal() {
 			items = append(items, item)
